@@ -9,8 +9,10 @@ from props import base
 from props.base import Context  # noqa: F401
 
 PID = 'C11'
-TIE_MODULES = ['DiffxVerif.Tie.Sections', 'DiffxVerif.Tie.RegexReader']
-NEEDS = ['sections', 're_reader']
+TIE_MODULES = ['DiffxVerif.Tie.Sections']
+NEEDS = ['sections']
+# a change of these pattern tables makes the check search with its escalated budget (no obligation)
+SOFT_PATTERNS = ['re_reader']
 ASSUMPTIONS = [
     "CPython's re engine is environment: the three header regexes are re-expressed in Diffx.Header (structure?, keyOk, valOk) and validated against the real reader by exhaustive enumeration on every run",
     'the oracle is a regular expression written from docs/spec/section-format.rst, compiled independently of pydiffx',
